@@ -39,6 +39,9 @@ structure LS where
   m : Nat := 0
   id : Ident := {}
   mid : Ident := {}       -- `lexer.mid`: the identifier at the marked position
+  /-- ghost (not in the code): a function term that was parsed to its closing parenthesis called one of the
+  system's non-deterministic functions. Nothing reads it; `C06.no_verdict_dropped` is about it. -/
+  sawNonIdem : Bool := false
   deriving Repr
 
 abbrev Lexer := Nat → Tk
@@ -196,7 +199,9 @@ def termFunc (L : Lexer) : Nat → LS → R × TermType × LS
       let (r, t, s) := parseFuncArgs L fuel s t
       if !r.idem then (r, .functionCall, s)
       else if t ≠ tkRparen then (R.bad, .functionCall, s)
-      else ({ idem := !(isNonIdempotentFunc target && (keyspace.isEmpty || keyspace.equal "system")) }, .functionCall, s)
+      else
+        let bad := isNonIdempotentFunc target && (keyspace.isEmpty || keyspace.equal "system")
+        ({ idem := !bad }, .functionCall, { s with sawNonIdem := s.sawNonIdem || bad })
 
 /-- `for t = l.next(); t != ']' && t != EOF; t = skipToken(l, l.next(), ',') { parseTerm }` -/
 def parseListLoop (L : Lexer) : Nat → LS → Nat → R × TermType × LS
